@@ -60,9 +60,12 @@ def run(tier, seed):
     for c in cases:
         sizes[(c["n"], len(c["edges"]))] = sizes.get((c["n"], len(c["edges"])), 0) + 1
     exh = [c for c in cases if c["cid"] <= len(cases) - int(args[5])]
-    rep.add(cases=len(cases), exhaustive_cases=len(exh), random_cases=int(args[5]),
+    distinct = len({json.dumps([c["n"], c["edges"]]) for c in cases if c["edges"]})
+    samples = [{"n": c["n"], "edges": c["edges"], "kruskal": c.get("kruskal"), "topo": c.get("topo")} for c in cases[::max(1, len(cases) // 6)]][:6]
+    rep.add(evaluations=len(cases) * 22, distinct_nontrivial=distinct, samples=samples,
+            cases=len(cases), exhaustive_cases=len(exh), random_cases=int(args[5]),
             by_nodes_edges={f"{n}n{m}e": v for (n, m), v in sorted(sizes.items())},
-            rule="exhaustive part: every multiset of <= mmax edges over all ordered node pairs (self-loops included) x weight class {1, 2, missing} "
+            rule="evaluations = graphs x 22 algorithm parts (each part quantifies over every source / target); distinct = distinct non-empty graphs. exhaustive part: every multiset of <= mmax edges over all ordered node pairs (self-loops included) x weight class {1, 2, missing} "
                  f"for n <= {args[1]} nodes, mmax = {args[3]}; random part: n <= {args[7]}, m <= {args[9]}, weights {{missing, 0, 1, 2, 3}}; "
                  "int and float weight encodings alternate; a signed weight in -1..3 per edge for Bellman-Ford",
             exhaustive=False,
